@@ -11,6 +11,16 @@ CfgB == [c \in {"m", "q"} |-> IF c = "m" THEN C("r", {In("K1", NoId, "destroyRea
 CfgC == [c \in {"q", "s"} |-> IF c = "q" THEN C("q", {In("K1", NoId, "qPrimary"), In("K2", NoId, "qMapped")}, TRUE)
                               ELSE C("r", {In("K2", 1, "strong")}, FALSE)]
 CfgD == [c \in {"q"} |-> C("q", {In("K1", NoId, "qPrimary"), In("K2", NoId, "qMappedDestroyReady")}, FALSE)]
+(* E: a controller that drops its by-id input (keeping the by-kind one) / F: one that adds a kind later *)
+CfgE == [c \in {"u", "v"} |-> IF c = "u" THEN C("r", {In("K1", NoId, "weak"), In("K1", 1, "strong")}, FALSE) ELSE C("r", {In("K1", NoId, "weak")}, FALSE)]
+AltE == [c \in {"u", "v"} |-> IF c = "u" THEN {In("K1", NoId, "weak")} ELSE {}]
+CfgF == [c \in {"u", "q"} |-> IF c = "u" THEN C("r", {In("K1", 1, "weak")}, FALSE) ELSE C("q", {In("K2", NoId, "qPrimary")}, FALSE)]
+AltF == [c \in {"u", "q"} |-> IF c = "u" THEN {In("K1", 1, "weak"), In("K2", NoId, "weak")} ELSE {}]
+NoAlt2(S) == [c \in S |-> {}]
+AltNoneWD == NoAlt2({"w", "d"})
+AltNoneMQ == NoAlt2({"m", "q"})
+AltNoneQS == NoAlt2({"q", "s"})
+AltNoneQ == NoAlt2({"q"})
 MapSame(k, id) == {[k |-> "K1", id |-> id]}
 MapAll(k, id) == {[k |-> "K1", id |-> i] : i \in Ids}
 =============================================================================
